@@ -24,10 +24,10 @@ REAL.update({"n%d" % i: b"urn:nfc:sn:svc%d" % i for i in range(1, 21)})
 ERR = {errno.EADDRINUSE: "InUse", errno.EACCES: "Access", errno.EFAULT: "Fault", errno.EAGAIN: "Exhausted",
        errno.EADDRNOTAVAIL: "Exhausted", errno.EINVAL: "Invalid", errno.EOPNOTSUPP: "OpNotSupp",
        errno.ENOTSUP: "NotSup", errno.ESHUTDOWN: "Shutdown", errno.EDESTADDRREQ: "DestReq", errno.EBADF: "BadF",
-       errno.EISCONN: "IsConn", errno.EALREADY: "Already", errno.EPIPE: "Pipe", errno.ENOTCONN: "NotConn"}
+       errno.EISCONN: "IsConn", errno.EALREADY: "Already", errno.EPIPE: "Pipe", errno.ENOTCONN: "NotConn", errno.EMSGSIZE: "MsgSize"}
 KIND = {"ldl": LDL, "dlc": DLC, "raw": RAW}
 RECVBUF, BACKLOG = 2, 1
-BLANK = dict(op="", c="A", s=0, n="", a=0, dst=0, m=0, kind="", res="OK", val=0, reach=0, got=0, cached=False)
+BLANK = dict(op="", c="A", s=0, n="", a=0, dst=0, m=0, kind="", res="OK", val=0, reach=0, got=0, cached=False, ln=0)
 
 
 def abstract_error(e):
@@ -41,8 +41,9 @@ def abstract_error(e):
 
 
 class World(object):
-    def __init__(self):
-        A, B = make_pair(128, 128)
+    def __init__(self, miu_a=128, miu_b=128):
+        A, B = make_pair(miu_a, miu_b)         # each side's send-miu is the MIU the other side announces
+        self.miu = {"A": miu_a, "B": miu_b}
         self.llc = {"A": A, "B": B}
         self.socks = {"A": [], "B": []}
         self.kinds = {"A": [], "B": []}
@@ -70,8 +71,8 @@ class World(object):
     def rq(self, c, i):
         t, k = self.tco(c, i), self.kinds[c][i - 1]
         if k == "dlc":
-            return [[0, p.ssap] for p in t.recv_queue if p.name == "CONNECT"] if t.state.LISTEN else []
-        return [[(p.data[0] if getattr(p, "data", b"") else 0), p.ssap] for p in t.recv_queue]
+            return [[0, p.ssap, 0] for p in t.recv_queue if p.name == "CONNECT"] if t.state.LISTEN else []
+        return [[(p.data[0] if getattr(p, "data", b"") else 0), p.ssap, len(getattr(p, "data", b""))] for p in t.recv_queue]
 
     def find_id(self, c, t):
         for i, s in enumerate(self.socks[c]):
@@ -221,12 +222,14 @@ class World(object):
         self.kinds[c].append("dlc")
         return self.log(op="Accept", c=c, s=i, kind="dlc", res="OK", got=len(self.socks[c]))
 
-    def sendto(self, c, i, dst, m):
-        self.cur = dict(op="SendTo", c=c, s=i, dst=dst, m=m)
+    def sendto(self, c, i, dst, m, n=4):
+        """A datagram of n octets whose first octet is the payload id m (an empty one has no id)."""
+        m = m if n > 0 else 0
+        self.cur = dict(op="SendTo", c=c, s=i, dst=dst, m=m, ln=n)
         p = self.peer(c)
         before = self.qlens(p)
         try:
-            self.socks[c][i - 1].sendto(bytes([m]) * 4, dst, DONTWAIT)
+            self.socks[c][i - 1].sendto((bytes([m]) + bytes(max(0, n - 1)))[:n], dst, DONTWAIT)
             res = "OK"
         except err_mod.Error as e:
             res = abstract_error(e)
@@ -235,19 +238,19 @@ class World(object):
         for j, (x, y) in enumerate(zip(before, self.qlens(p))):
             if y > x:
                 got = j + 1
-        return self.log(op="SendTo", c=c, s=i, dst=dst, m=m, kind="ldl", res=res, got=got)
+        return self.log(op="SendTo", c=c, s=i, dst=dst, m=m, ln=n, kind="ldl", res=res, got=got)
 
     def recvfrom(self, c, i):
         self.cur = dict(op="RecvFrom", c=c, s=i)
-        m = a = 0
+        m = a = ln = 0
         try:
             data, ssap = self.socks[c][i - 1].recvfrom()
             if ssap is None:                    # raw access point: the PDU itself
                 data, ssap = data.data, data.ssap
-            m, a, res = (data[0] if data else 0), ssap, "OK"
+            m, a, ln, res = (data[0] if data else 0), ssap, len(data or b""), "OK"
         except err_mod.Error as e:
             res = abstract_error(e)
-        return self.log(op="RecvFrom", c=c, s=i, m=m, a=a, kind=self.kinds[c][i - 1], res=res)
+        return self.log(op="RecvFrom", c=c, s=i, m=m, a=a, ln=ln, kind=self.kinds[c][i - 1], res=res)
 
     def recv(self, c, i):
         """recv() on a connection-mode socket that has nothing to wait for (CLOSE_WAIT with the DISC indication queued,
@@ -401,7 +404,8 @@ def random_ops(W, rnd, steps, sides="AB", names=None, weights=None):
                 occ = [a for a in cands if a >= 2 and W.occupied(p, a)]
                 dst = rnd.choice(occ * 3 + [rnd.choice(cands)] + (dlc_at[:2] if rnd.random() < 0.25 else []))
                 if W.sendto_ok(c, i, dst):
-                    W.sendto(c, i, dst, 1)
+                    lim = W.miu[p]
+                    W.sendto(c, i, dst, rnd.choice([1, 2]), rnd.choice([0, 1, 4, 4, lim - 2, lim - 1, lim, lim, lim + 1]))
         elif r < 0.91:
             if kind != "dlc":
                 t = W.tco(c, i)
@@ -524,10 +528,55 @@ def life(W, rnd):
     random_ops(W, rnd, 12, names=names[:3])
 
 
+def dgram(W, rnd):
+    """Datagram sizes: payloads of 0, 1, MIU-2, MIU-1, MIU octets (accepted by sendto(), must arrive at exactly the
+    socket bound at the destination, with the sender's address) and MIU+1 (EMSGSIZE), MIU = what the receiver
+    announced, in both directions, to sockets bound by number, by name and anonymously (datagram and raw sockets)."""
+    for c in rnd.sample("AB", 2):                      # c receives, p sends
+        p = W.peer(c)
+        lim = W.miu[c]
+        rx = []
+        for how in rnd.sample(["addr", "name", "none", "raw"], 4):
+            i = W.socket(c, "raw" if how == "raw" else "ldl")
+            if how == "addr":
+                W.bind_addr(c, i, rnd.choice([a for a in range(32, 64) if not W.occupied(c, a)]))
+            elif how == "name":
+                W.bind_name(c, i, rnd.choice(["n1", "n2", "wk"]) if not rx else "n3")
+            elif how == "raw":
+                W.bind_addr(c, i, rnd.choice([a for a in range(2, 32) if not W.occupied(c, a)]))
+            else:
+                W.bind_none(c, i)
+            rx.append(i)
+        tx = W.socket(p, "ldl")
+        if rnd.random() < 0.5:
+            W.bind_none(p, tx)
+        sizes = [0, 1, lim - 2, lim - 1, lim, lim + 1]
+        rnd.shuffle(sizes)
+        for k, n in enumerate(sizes):
+            i = rx[k % len(rx)] if k >= len(rx) else rx[k]
+            dst = W.tco(c, i).addr
+            if dst is None or not W.sendto_ok(p, tx, dst):
+                continue
+            W.sendto(p, tx, dst, 1 + k % 2, n)
+            for j in rx:                                   # whoever holds a datagram reads it: only the addressed one does
+                if len(W.tco(c, j).recv_queue) > 0:
+                    W.recvfrom(c, j)
+        # two in a row to one socket, read in order
+        i = rnd.choice(rx)
+        dst = W.tco(c, i).addr
+        if dst is not None and W.sendto_ok(p, tx, dst):
+            W.sendto(p, tx, dst, 1, lim)
+            W.sendto(p, tx, dst, 2, lim - 1)
+            while len(W.tco(c, i).recv_queue) > 0:
+                W.recvfrom(c, i)
+    random_ops(W, rnd, 8)
+
+
 def history(seed, klass):
     rnd = random.Random(seed)
     random.seed(seed)
-    W = World()
+    mius = [128, 129, 248, 2175]
+    W = World(rnd.choice(mius), rnd.choice(mius))
     try:
         if klass == "named":
             # exhaust the 16 named addresses, free some, reuse them, try closed names again, look from the peer
@@ -618,16 +667,18 @@ def history(seed, klass):
             random_ops(W, rnd, 10)
         elif klass == "life":
             life(W, rnd)
+        elif klass == "dgram":
+            dgram(W, rnd)
         else:
             random_ops(W, rnd, rnd.randint(40, 110), names=NAMESEQ[1:rnd.choice([3, 5, 8])])
     except HarnessError as e:
         W.blocked(str(e))
     finally:
         W.finish()
-    return dict(id="%s-%d" % (klass, seed), const=dict(), ev=W.ev)
+    return dict(id="%s-%d" % (klass, seed), const=dict(miuA=W.miu["A"], miuB=W.miu["B"]), ev=W.ev)
 
 
-KLASSES = ("named", "dyn", "wks", "life", "random", "life", "random", "life")
+KLASSES = ("named", "dyn", "wks", "life", "random", "dgram", "random", "life")
 
 
 # ------------------------------------------------------------------------------------------------
@@ -667,6 +718,8 @@ def classify(tr, line, act, why):
         return "inv:%s@%s" % (",".join(sorted(names)), act)
     if kind == "result" and ev["op"] == "Close" and ev["res"] == "Crash":
         return "result@Close:AttributeError"
+    if kind == "result" and ev["op"] == "SendTo" and len(why) > 1 and "AcceptedDatagramNotDelivered" in json.dumps(why[1]):
+        return "delivery:datagram-accepted-by-sendto-not-delivered-to-the-socket-bound-at-its-destination"
     if kind == "post" and len(why) > 1 and why[1]:
         # the allocation invariant on the real tables names what is wrong
         return "real-tables:%s@%s" % (",".join(why[1]), act)
@@ -676,9 +729,10 @@ def classify(tr, line, act, why):
 FAMILIES = ("alloc", "names", "dgram", "life")
 ASIS = {"alloc": ("NoDoubleAlloc", "INVARIANT"), "names": ("ResolveRight", "PROPERTY"), "dgram": ("NoDoubleAlloc", "INVARIANT")}
 ASIS_EXTRA = (("names", "InUseRight", "PROPERTY"), ("names", "ConnectByName", "PROPERTY"),
-              ("life:keep", "FreedOnLastClose", "INVARIANT"))      # close() that leaves a dead socket in its access point
+              ("life:keep", "FreedOnLastClose", "INVARIANT"),
+              ("dgram:hdr", "Delivered", "PROPERTY"))          # receiver counts the UI header against its MIU      # close() that leaves a dead socket in its access point
 WITNESSES = {"alloc": ["W_NamedExhausted", "W_DynExhausted", "W_WksBound", "W_Access"],
-             "names": ["W_Shared", "W_Resolved", "W_ByName"], "dgram": ["W_Delivered"],
+             "names": ["W_Shared", "W_Resolved", "W_ByName"], "dgram": ["W_FullSize", "W_TooLong", "W_Delivered"],
              "life": ["W_DeadByRecv", "W_RebindAfterDead", "W_DeadByFrmr", "W_DeadByUi", "W_DeadNamed"]}
 
 
@@ -744,7 +798,7 @@ def run(tier, seed):
 
     walls["asis+witnesses"] = round(time.time() - t_start, 1)
     # 2. conformance: real histories -> Trace_LlcpAddr
-    n = 104 if quick else 800
+    n = 96 if quick else 800
     traces, meta = [], {}
     for i in range(n):
         klass = KLASSES[i % len(KLASSES)]
@@ -779,7 +833,7 @@ def run(tier, seed):
         for (ln, op, wy) in items:
             ev = tr["ev"][ln - 1]
             key = classify(tr, ln, op, wy)
-            brief = {k: ev[k] for k in ("op", "c", "s", "n", "a", "dst", "res", "val", "reach", "got")}
+            brief = {k: ev[k] for k in ("op", "c", "s", "n", "a", "dst", "ln", "res", "val", "reach", "got")}
             ck.violation(key, "history %s rejected at call %d (%s): %s ; %s" % (
                 tr["id"], ln, op, json.dumps(wy)[:400], json.dumps(brief)),
                 replay=dict(kind="trace", **meta[tr["id"]]))
